@@ -2073,3 +2073,22 @@ def unroll_all(facts, body, e):
                 here['%s(%r,%r)' % cm] = cm
         out.append(here)
     return out
+
+
+_OPCALLS = {'add': 'Add', 'sub': 'Sub', 'mul': 'Mul', 'div': 'Div', 'rem': 'Rem'}
+
+
+def ops_to_bins(e):
+    """arithmetic written through the operator traits (`&a - &b` on references, SIMD / matrix types) as bin nodes, so an
+    expression reads alike whether rustc emitted a primitive operation or a call to std::ops::Sub::sub"""
+    if not isinstance(e, E):
+        return e
+    x = e
+    if x.kind == 'call' and x.name.startswith('std::ops::') and x.name.rsplit('::', 1)[-1] in _OPCALLS and \
+            len(x.args) == 2 and not x.proj:
+        return E('bin', name=_OPCALLS[x.name.rsplit('::', 1)[-1]], args=[ops_to_bins(x.args[0]), ops_to_bins(x.args[1])],
+                 site=x.site)
+    if x.args:
+        return E(x.kind, name=x.name, args=[ops_to_bins(a) for a in x.args], root=x.root, fields=x.fields,
+                 const=x.const, site=x.site, extra=x.extra, proj=x.proj)
+    return x
